@@ -42,7 +42,10 @@ def main():
         print("no check for %s: %s" % (prop, e))
         return 2
     try:
-        return mod.run(args)
+        rc = mod.run(args)
+        if rc == 0 and C.tier() == "thorough" and C.REPO == "/repo" and not args.only and not os.environ.get("VERIF_NO_SELFTEST"):
+            rc = thorough_selftest(prop)
+        return rc
     except C.AnalysisBroken as e:
         print("ANALYSIS-BROKEN property=%s: %s" % (prop, e))
         return 2
@@ -50,6 +53,28 @@ def main():
         traceback.print_exc()
         print("ANALYSIS-BROKEN property=%s: internal error" % prop)
         return 2
+
+
+def thorough_selftest(prop):
+    """Thorough tier: the checker is tested both ways on its own mutants (scratch copies under /var/tmp);
+    the tally goes into the evidence file; a mutant behaving unexpectedly means the analysis is broken."""
+    import json
+    from engine import selftest
+    summ = selftest.run_for_prop(prop)
+    p = os.path.join(C.EVIDENCE, prop + ".json")
+    try:
+        ev = json.load(open(p))
+        ev["coverage"]["selftest_mutants"] = summ
+        json.dump(ev, open(p, "w"), indent=1)
+    except (OSError, ValueError):
+        pass
+    print("[%s] selftest: %s/%s breaking mutants reported, %s/%s neutral mutants silent" % (
+        prop, summ.get("breaking_detected", 0), summ.get("breaking_total", 0), summ.get("neutral_silent", 0), summ.get("neutral_total", 0)))
+    if summ.get("unexpected"):
+        for u in summ["unexpected"]:
+            print("ANALYSIS-BROKEN property=%s: self-test mutant %s: %s" % (prop, u["id"], "; ".join(u["why"])))
+        return 2
+    return 0
 
 
 if __name__ == "__main__":
